@@ -776,9 +776,23 @@ def pipeline_case(chk, ctx, case):
     with Spy(G) as spy:
         try:
             with np.errstate(all='ignore'), quiet(masks is not None):
-                res = call_api(G, api, f_in, [10], boots, p_in, data, eps, multinom, log=log, nested=nested, full=full, thetas=thetas, variant=variant)
+                # the parameter vector is handed over as a list or (every other case, decided from the case's own numbers) as a float64 array
+                p_arg = np.array(p_in, dtype=float) if int(round(abs(float(p_in[0])) * 1e7)) % 2 == 1 else p_in
+                res = call_api(G, api, f_in, [10], boots, p_arg, data, eps, multinom, log=log, nested=nested, full=full, thetas=thetas, variant=variant)
         except Exception as e:
             chk.fail('%s:%s' % (key0, type(e).__name__), '%s on a linear Poisson model raises %r' % (api, e), small); return
+    if isinstance(p_arg, np.ndarray):
+        # "any sequence of calls": the same call once more, with the same objects, is the shortest sequence (outside the recorder)
+        chk.stat('p0:ndarray')
+        try:
+            with np.errstate(all='ignore'), quiet(masks is not None):
+                res2 = call_api(G, api, f_in, [10], boots, p_arg, data, eps, multinom, log=log, nested=nested, full=full, thetas=thetas, variant=variant)
+        except Exception as e:
+            chk.fail('%s:repeat:%s' % (key0, type(e).__name__), '%s raises %r when called a second time with the same objects' % (api, e), small); return
+        f1, f2 = flat_result(api, res), flat_result(api, res2)
+        if f1.shape != f2.shape or not np.allclose(f1, f2, rtol=1e-9, atol=0, equal_nan=True):
+            chk.fail(key0 + ':repeat', '%s called twice in a row with the same objects (p0 a float64 array) gives %s then %s; p0 is now %s (was %s)'
+                     % (api, f1[:4], f2[:4], list(p_arg), p_in), small); return
     if not spy.god or not spy.hess:
         chk.fail(key0 + ':no_godambe_call', '%s did not go through get_godambe/get_hess' % api, small); return
     god = spy.god[0]
